@@ -62,7 +62,8 @@ PROBES = ['replies_reordered', 'replies_held_late', 'handle_sequences',
           'short_reads_served', 'read_error_injected',
           'write_error_injected', 'early_eof', 'op_raised', 'op_ok',
           'parallel_requests', 'real_server', 'storage_short_reads',
-          'storage_partial_write', 'storage_full', 'size_withheld_refused', 'sparse_copy', 'hole_layouts',
+          'storage_partial_write', 'storage_full', 'size_withheld_refused',
+          'copy_into_itself', 'sparse_copy', 'hole_layouts',
           'trailing_hole']
 
 _base = [None]
@@ -92,11 +93,19 @@ def gen_plan(rng):
 
     for _ in range(rng.between(1, 4)):
         kind = rng.choice(['get', 'put', 'copy', 'read', 'write', 'append',
-                           'handle'])
+                           'handle'] + (['selfcopy'] if real else []))
         size = rng.choice(SIZES) if rng.chance(70) else \
             rng.between(0, 4 * bs * max(1, min(mr, 8)) + 3)
+
+        if kind == 'selfcopy':
+            # the server-side copy of a file "to its end" into itself, a bit
+            # further on: the end moves away as fast as the copy advances
+            size = rng.choice([1, 2, 100, 4096, 50000])
         size = min(size, bs * 150, 300000)
         op = {'op': kind, 'size': size}
+
+        if kind == 'selfcopy':
+            op['off'] = rng.choice([1, 1, size // 2 + 1, size])
 
         if kind == 'read':
             op['off'] = rng.choice([0, 0, 1, size // 2, size, size + 5])
@@ -276,8 +285,13 @@ def valid_plan(plan):
             return False
 
         for op in plan['ops']:
+            if op['op'] == 'selfcopy' and (not plan['real_server'] or
+                                           not 1 <= op['off'] <= op['size']
+                                           or op['size'] > 60000):
+                return False
+
             if op['op'] not in ('get', 'put', 'copy', 'read', 'write',
-                                'append', 'handle') or \
+                                'append', 'handle', 'selfcopy') or \
                     not 0 <= op['size'] <= 300000:
                 return False
 
@@ -438,6 +452,11 @@ def run_plan(plan, sched_seed=None, sched_replay=None):
             return super().read(file_obj, offset, size)
 
         def write(self, file_obj, offset, data):
+            if offset > 8 << 20:
+                # (a quota on the scratch disk: nothing legitimate in these
+                # runs gets near it)
+                raise OSError(errno.EDQUOT, 'Disk quota exceeded')
+
             k = iostat['writes']
             iostat['writes'] += 1
             at = io.get('partial_write_at')
@@ -539,6 +558,29 @@ def run_plan(plan, sched_seed=None, sched_replay=None):
                     rec['ok'] = got == src
                     rec['detail'] = 'copy %r bytes vs source %d' % \
                         (None if got is None else len(got), len(src))
+                elif kind == 'selfcopy':
+                    sim.probes['copy_into_itself'] += 1
+                    set_remote(rname, src)
+
+                    async with sftp.open(rname, 'rb') as f1:
+                        async with sftp.open(rname, 'r+b') as f2:
+                            # length 0: "to the end of the file"
+                            await sftp.remote_copy(f1, f2, 0, 0, op['off'])
+
+                    got = remote_bytes(rname)
+                    want = src[:op['off']] + src
+
+                    if op['off'] < len(src):
+                        # source and destination ranges overlap: what the
+                        # overlap ends up holding is nobody's promise; that
+                        # the copy ends, and where, is
+                        rec['ok'] = got is not None and len(got) == len(want)
+                    else:
+                        rec['ok'] = got == want
+                    rec['detail'] = 'copy of the file into itself at ' \
+                        'offset %d: %r bytes, expected %d' % \
+                        (op['off'], None if got is None else len(got),
+                         len(want))
                 elif kind == 'handle':
                     sim.probes['handle_sequences'] += 1
                     set_remote(rname, src)
